@@ -248,11 +248,78 @@ def index_sweep(part, n):
             part.fail("wrong-values", "a[idx]: values differ from NumPy", desc)
 
 
+def contraction_sweep(part, n):
+    """tensordot with every form of `axes` (int, pair of lists in any order, negative axes), vecdot and batched matmul on
+    1-4-d operands with independent chunkings"""
+    import cubed
+    import cubed.array_api as xp
+
+    spec = cubed.Spec(allowed_mem="200MB")
+    for _ in range(n):
+        rng = part.rng
+        kind = rng.choice(["tensordot-lists", "tensordot-lists", "tensordot-int", "vecdot", "matmul-batched"])
+        if kind == "tensordot-lists":
+            nd0, nd1 = rng.randint(1, 4), rng.randint(1, 4)
+            k = rng.randint(1, min(nd0, nd1, 3))
+            s0 = [rng.randint(1, 4) for _ in range(nd0)]
+            s1 = [rng.randint(1, 4) for _ in range(nd1)]
+            ax0, ax1 = rng.sample(range(nd0), k), rng.sample(range(nd1), k)
+            for i, j in zip(ax0, ax1):
+                s1[j] = s0[i]
+            axes = ([a - nd0 if rng.random() < 0.3 else a for a in ax0], [a - nd1 if rng.random() < 0.3 else a for a in ax1])
+            call = lambda m, x, y: m.tensordot(x, y, axes=(tuple(axes[0]), tuple(axes[1])))
+        elif kind == "tensordot-int":
+            k = rng.randint(0, 2)
+            com = [rng.randint(1, 4) for _ in range(k)]
+            s0 = [rng.randint(1, 4) for _ in range(rng.randint(0, 2))] + com
+            s1 = com + [rng.randint(1, 4) for _ in range(rng.randint(0, 2))]
+            axes = k
+            call = lambda m, x, y: m.tensordot(x, y, axes=k)
+        elif kind == "vecdot":
+            nd = rng.randint(1, 3)
+            s0 = [rng.randint(1, 4) for _ in range(nd)]
+            s1 = list(s0)
+            ax = rng.randrange(-nd, nd)
+            axes = ax
+            call = lambda m, x, y: m.vecdot(x, y, axis=ax) if m is not np else np.sum(x * y, axis=ax)
+        else:
+            b = [rng.randint(1, 3) for _ in range(rng.randint(0, 2))]
+            i, j, l = rng.randint(1, 4), rng.randint(1, 4), rng.randint(1, 4)
+            s0, s1 = b + [i, j], b + [j, l]
+            axes = None
+            call = lambda m, x, y: m.matmul(x, y)
+        if not s0 or not s1:
+            continue
+        an = np.arange(int(np.prod(s0)), dtype="float64").reshape(s0) % 7 - 3
+        bn = (np.arange(int(np.prod(s1)), dtype="float64").reshape(s1) * 3) % 5 - 2
+        try:
+            want = np.asarray(call(np, an, bn))
+        except Exception:
+            continue
+        c0, c1 = G.gen_chunks(rng, tuple(s0)), G.gen_chunks(rng, tuple(s1))
+        desc = {"contraction": kind, "shapes": [s0, s1], "chunks": [list(c0), list(c1)], "axes": axes}
+        part.evaluations += 1
+        part.count("contraction:" + kind)
+        try:
+            with warnings.catch_warnings():
+                warnings.simplefilter("ignore")
+                got = np.asarray(call(xp, xp.asarray(an, chunks=c0, spec=spec), xp.asarray(bn, chunks=c1, spec=spec)).compute(optimize_graph=rng.random() < 0.5))
+        except Exception as e:
+            part.count("contraction-declined:" + type(e).__name__)
+            continue
+        part.nt(desc)
+        if tuple(got.shape) != tuple(want.shape):
+            part.fail("wrong-shape", f"{kind}: cubed shape {got.shape}, NumPy shape {want.shape}", desc)
+        elif not G.values_equal(got, want):
+            part.fail("wrong-values", f"{kind} axes={axes}: values differ from NumPy", desc)
+
+
 def run(ctx):
     warnings.filterwarnings("ignore")
     k_keyfunctions(ctx)
     pmap(ctx, work, [25] * (ctx.n(300, 10000) // 25), procs=12)
     pmap(ctx, index_sweep, [50] * (ctx.n(600, 12000) // 50), procs=12)
+    pmap(ctx, contraction_sweep, [25] * (ctx.n(300, 6000) // 25), procs=12)
 
 
 def search(ctx):
